@@ -21,16 +21,16 @@ SPEC = dict(
                  'sort is not required to be stable'],
     exhaustive={Q: False, T: False},
     jobs=[
-        job('list', 'h_seq', 'list', cases={Q: 10000, T: 80000}, procs=16),
-        job('array', 'h_seq', 'array', cases={Q: 10000, T: 80000}, procs=16),
-        job('plist', 'h_seq', 'plist', cases={Q: 5000, T: 40000}, procs=16),
+        job('list', 'h_seq', 'list', cases={Q: 20000, T: 80000}, procs=16),
+        job('array', 'h_seq', 'array', cases={Q: 20000, T: 80000}, procs=16),
+        job('plist', 'h_seq', 'plist', cases={Q: 10000, T: 40000}, procs=16),
         job('array-grow', 'h_seq', 'array-grow', cases=-1, procs=16),
         job('sort-exh', 'h_seq', 'sort-exh', cases=-1, scale={Q: 7, T: 8}, procs=16),
-        job('sort-rand', 'h_seq', 'sort-rand', cases={Q: 1000, T: 8000}, scale=2000, procs=16),
+        job('sort-rand', 'h_seq', 'sort-rand', cases={Q: 2000, T: 8000}, scale=2000, procs=16),
         # the same generators against the -O2 build without sanitizers (the configuration the library ships in): model + structural walker only
-        job('list-O2', 'h_seq', 'list', variant='plain', cases={Q: 1000, T: 15000}, procs=8, args=['--start', '500000']),
-        job('array-O2', 'h_seq', 'array', variant='plain', cases={Q: 1000, T: 15000}, procs=8, args=['--start', '500000']),
-        job('plist-O2', 'h_seq', 'plist', variant='plain', cases={Q: 1000, T: 15000}, procs=8, args=['--start', '500000']),
+        job('list-O2', 'h_seq', 'list', variant='plain', cases={Q: 2000, T: 15000}, procs=8, args=['--start', '500000']),
+        job('array-O2', 'h_seq', 'array', variant='plain', cases={Q: 2000, T: 15000}, procs=8, args=['--start', '500000']),
+        job('plist-O2', 'h_seq', 'plist', variant='plain', cases={Q: 2000, T: 15000}, procs=8, args=['--start', '500000']),
         job('sort-exh-O2', 'h_seq', 'sort-exh', variant='plain', cases=-1, scale={Q: 6, T: 8}, procs=8),
     ],
     floors={Q: dict(ops=1500000, finds=20000000, structure_walks=1700000, op_sort=35000, sort_permutations=6788, sort_duplicate_sequences=19682, growths=70000, sweep_configurations=52236,
